@@ -726,6 +726,22 @@ func (x *Exec) applyModifies(st *State, c *SpecCtx, m *Expr) error {
 			}
 			return nil
 		}
+		if m.Name == "elems" && len(m.Args) == 1 {
+			// elems(T): the elements of every []T
+			et, err := x.goType(m.Args[0].String(), c.pkg)
+			if err != nil {
+				return fmt.Errorf("elems(%s): %v", m.Args[0].String(), err)
+			}
+			for _, lf := range leavesOf(et) {
+				key := sliceKey(et, lf.Path)
+				s, ok := x.heapSort[key]
+				if !ok {
+					continue
+				}
+				x.heapSet(st, key, x.D.fresh("mod.elems", s))
+			}
+			return nil
+		}
 		if m.Name == "field" && len(m.Args) == 1 && m.Args[0].Kind == "field" {
 			// field(e.f): the field itself even when map-typed
 			b, err := x.specEval(c, m.Args[0].Args[0])
